@@ -68,7 +68,7 @@ static void check_names(void) {
 /* allocation site summary of surplus blocks: printed as raw addresses, symbolised by the orchestrator */
 static void check_allocs(unsigned long mark) {
 	int n = 0, tries;
-	for (tries = 0; tries < 200; tries++) { n = va_count_new(mark); if (!n) break; usleep(5000); }    /* detached threads may still be dropping their handle */
+	for (tries = 0; tries < 3000; tries++) { n = va_count_new(mark); if (!n) break; usleep(5000); }    /* detached threads may still be dropping their handle */
 	if (n) {
 		printf("{\"ev\":\"leakblocks\",\"scenario\":\"%s\",\"blocks\":", cur_sc); va_report_new(stdout, mark); printf("}\n");
 	}
